@@ -18,28 +18,31 @@ SER = 'cssutils/serialize.py'
 
 
 def run(chk):
-    r01a(chk)
-    r01b(chk)
-    tokrules.r01c(chk)
-    tokrules.r01d(chk, thorough=chk.tier == 'thorough')
+    chk.attempt(r01a, chk)
+    chk.attempt(r01b, chk)
+    chk.attempt(tokrules.r01c, chk)
+    chk.attempt(tokrules.r01d, chk, thorough=chk.tier == 'thorough')
     if chk.tier == 'thorough':
         from .c13 import profile_eda
 
-        profile_eda(chk, 'R01.d')
-    r01e(chk)
-    r01f(chk)
+        chk.attempt(profile_eda, chk, 'R01.d')
+    chk.attempt(r01e, chk)
+    chk.attempt(r01f, chk)
     from .c08 import r08c
 
-    r08c(chk, 'R01.g')
-    r01h(chk)
-    r01i(chk)
-    r01j(chk)
-    r01k(chk)
+    chk.attempt(r08c, chk, 'R01.g')
+    chk.attempt(r01h, chk)
+    chk.attempt(r01i, chk)
+    chk.attempt(r01j, chk)
+    chk.attempt(r01k, chk)
     from .c10 import r10h
 
-    r10h(chk, 'R01.l')
-    r01m(chk)
-    r01n(chk)
+    chk.attempt(r10h, chk, 'R01.l')
+    chk.attempt(r01m, chk)
+    chk.attempt(r01n, chk)
+    from .c01b import r01o
+
+    chk.attempt(r01o, chk, thorough=chk.tier == 'thorough')
 
 
 # ---------------------------------------------------------------------------
